@@ -84,6 +84,42 @@ _RE_VIOL_TEMP = re.compile(r"Error: Temporal properties were violated")
 _RE_SIM = re.compile(r"The number of states generated: (\d+)")
 
 
+def _collect_prints(out):
+    """PrintT output: values may be pretty-printed over several lines; join until brackets balance."""
+    res, cur, depth = [], None, 0
+    for l in out.splitlines():
+        if cur is None:
+            if not (l.startswith("<<") or l.startswith('"')):
+                continue
+            cur, depth = "", 0
+        cur += (" " if cur else "") + l.strip()
+        instr = False
+        depth = 0
+        i = 0
+        while i < len(cur):
+            ch = cur[i]
+            if instr:
+                if ch == "\\":
+                    i += 1
+                elif ch == '"':
+                    instr = False
+            elif ch == '"':
+                instr = True
+            elif cur.startswith("<<", i):
+                depth += 1; i += 1
+            elif cur.startswith(">>", i):
+                depth -= 1; i += 1
+            elif ch in "{[(":
+                depth += 1
+            elif ch in "}])":
+                depth -= 1
+            i += 1
+        if depth <= 0 and not instr:
+            res.append(cur)
+            cur = None
+    return res
+
+
 class TlcResult:
     def __init__(self):
         self.ok = False
@@ -175,7 +211,7 @@ def run_tlc(module, cfg_kwargs, *, workers=16, simulate=None, depth=None, seed=N
         for name, _line, _mod, distinct, total in _RE_COV_ACTION.findall(out):
             a, b = r.coverage.get(name, (0, 0))
             r.coverage[name] = (a + int(distinct), b + int(total))
-        r.prints = [l for l in out.splitlines() if l.startswith("<<") or l.startswith('"')]
+        r.prints = _collect_prints(out)
         v = _RE_VIOL_INV.search(out) or _RE_VIOL_ACT.search(out)
         if v:
             r.violated = v.group(1)
@@ -364,7 +400,7 @@ def parse_trace_file(path):
     """File written by `-simulate file=`: returns list of (action_label, state dict)."""
     txt = open(path).read()
     out = []
-    for m in re.finditer(r"\\\* <?([^\n>]*)>?\s*\nSTATE_\d+ ==\n(.*?)(?=\n\n|\n\\\*|\n=+|\Z)", txt, re.S):
+    for m in re.finditer(r"\\\* <?([^\n>]*)>?\s*\nSTATE_\d+ ==[ \t]*\n(.*?)(?=\n\n|\n\\\*|\n=+|\Z)", txt, re.S):
         label = m.group(1).strip()
         out.append((label.split(" ")[0], _parse_state_block(m.group(2))))
     return out
